@@ -18,12 +18,15 @@ pub struct Cost {
     pub elems: usize,
     /// scriptSig bytes (pushes)
     pub ssig: usize,
+    /// keys of the CHECKMULTISIGs that are executed (each adds its key count to the consensus
+    /// opcode counter; all other opcodes count whether executed or not)
+    pub mops: usize,
 }
 
 impl Cost {
-    pub const ZERO: Cost = Cost { wit: 0, elems: 0, ssig: 0 };
-    fn add(self, o: Cost) -> Cost { Cost { wit: self.wit + o.wit, elems: self.elems + o.elems, ssig: self.ssig + o.ssig } }
-    fn max(self, o: Cost) -> Cost { Cost { wit: self.wit.max(o.wit), elems: self.elems.max(o.elems), ssig: self.ssig.max(o.ssig) } }
+    pub const ZERO: Cost = Cost { wit: 0, elems: 0, ssig: 0, mops: 0 };
+    fn add(self, o: Cost) -> Cost { Cost { wit: self.wit + o.wit, elems: self.elems + o.elems, ssig: self.ssig + o.ssig, mops: self.mops + o.mops } }
+    fn max(self, o: Cost) -> Cost { Cost { wit: self.wit.max(o.wit), elems: self.elems.max(o.elems), ssig: self.ssig.max(o.ssig), mops: self.mops.max(o.mops) } }
 }
 
 fn omax(a: Option<Cost>, b: Option<Cost>) -> Option<Cost> {
@@ -35,15 +38,15 @@ fn omax(a: Option<Cost>, b: Option<Cost>) -> Option<Cost> {
 }
 fn oadd(a: Option<Cost>, b: Option<Cost>) -> Option<Cost> { Some(a?.add(b?)) }
 
-const EMPTY: Cost = Cost { wit: 1, elems: 1, ssig: 1 };
-const ONE: Cost = Cost { wit: 2, elems: 1, ssig: 1 };
-const PREIMAGE: Cost = Cost { wit: 33, elems: 1, ssig: 33 };
+const EMPTY: Cost = Cost { wit: 1, elems: 1, ssig: 1, mops: 0 };
+const ONE: Cost = Cost { wit: 2, elems: 1, ssig: 1, mops: 0 };
+const PREIMAGE: Cost = Cost { wit: 33, elems: 1, ssig: 33, mops: 0 };
 
 fn sig(ctx: Ctx) -> Cost {
     if ctx == Ctx::Tap {
-        Cost { wit: 66, elems: 1, ssig: 66 }
+        Cost { wit: 66, elems: 1, ssig: 66, mops: 0 }
     } else {
-        Cost { wit: 73, elems: 1, ssig: 73 }
+        Cost { wit: 73, elems: 1, ssig: 73, mops: 0 }
     }
 }
 
@@ -70,7 +73,7 @@ pub fn sizes(n: &Node, ctx: Ctx) -> Option<SD> {
         PkK(_) => SD { sat: Some(sig(ctx)), dis: Some(EMPTY) },
         PkH(k) => {
             let kl = key_bytes(k, ctx).ok()?.len();
-            let key = Cost { wit: 1 + kl, elems: 1, ssig: push_len(kl) };
+            let key = Cost { wit: 1 + kl, elems: 1, ssig: push_len(kl), mops: 0 };
             SD { sat: Some(sig(ctx).add(key)), dis: Some(EMPTY.add(key)) }
         }
         RawPkH(_) => return None,
@@ -142,26 +145,64 @@ pub fn sizes(n: &Node, ctx: Ctx) -> Option<SD> {
                 }
                 best[*k]
             };
-            let sat = match (dim(&|c| c.wit), dim(&|c| c.elems), dim(&|c| c.ssig)) {
-                (Some(w), Some(e), Some(s)) => Some(Cost { wit: w, elems: e, ssig: s }),
+            let sat = match (dim(&|c| c.wit), dim(&|c| c.elems), dim(&|c| c.ssig), dim(&|c| c.mops)) {
+                (Some(w), Some(e), Some(s), Some(m)) => Some(Cost { wit: w, elems: e, ssig: s, mops: m }),
                 _ => None,
             };
             SD { sat, dis }
         }
-        Multi(k, _) | SortedMulti(k, _) => {
+        Multi(k, ks) | SortedMulti(k, ks) => {
             let s = sig(ctx);
             SD {
-                sat: Some(Cost { wit: 1 + k * s.wit, elems: k + 1, ssig: 1 + k * s.ssig }),
-                dis: Some(Cost { wit: k + 1, elems: k + 1, ssig: k + 1 }),
+                sat: Some(Cost { wit: 1 + k * s.wit, elems: k + 1, ssig: 1 + k * s.ssig, mops: ks.len() }),
+                dis: Some(Cost { wit: k + 1, elems: k + 1, ssig: k + 1, mops: ks.len() }),
             }
         }
         MultiA(k, ks) | SortedMultiA(k, ks) => {
             let s = sig(ctx);
             let n = ks.len();
             SD {
-                sat: Some(Cost { wit: k * s.wit + (n - k), elems: n, ssig: k * s.ssig + (n - k) }),
-                dis: Some(Cost { wit: n, elems: n, ssig: n }),
+                sat: Some(Cost { wit: k * s.wit + (n - k), elems: n, ssig: k * s.ssig + (n - k), mops: 0 }),
+                dis: Some(Cost { wit: n, elems: n, ssig: n, mops: 0 }),
             }
         }
     })
+}
+
+/// Number of opcodes that the consensus opcode counter counts (everything above OP_16), whether
+/// executed or not; `None` for a malformed script.
+pub fn count_ops(script: &[u8]) -> Option<usize> {
+    let mut i = 0usize;
+    let mut n = 0usize;
+    while i < script.len() {
+        let op = script[i];
+        i += 1;
+        let skip = match op {
+            0x01..=0x4b => op as usize,
+            0x4c => {
+                let l = *script.get(i)? as usize;
+                i += 1;
+                l
+            }
+            0x4d => {
+                let l = u16::from_le_bytes([*script.get(i)?, *script.get(i + 1)?]) as usize;
+                i += 2;
+                l
+            }
+            0x4e => {
+                let l = u32::from_le_bytes([*script.get(i)?, *script.get(i + 1)?, *script.get(i + 2)?, *script.get(i + 3)?]) as usize;
+                i += 4;
+                l
+            }
+            _ => 0,
+        };
+        if i + skip > script.len() {
+            return None;
+        }
+        i += skip;
+        if op > 0x60 {
+            n += 1;
+        }
+    }
+    Some(n)
 }
